@@ -195,7 +195,13 @@ class Writer:
                 sub.loops, sub.guards = ctx.loops, ctx.guards
                 sub.env = dict(ctx.env)
                 for p, a in zip(h['params'], n.get('args', [])):
-                    sub.env[p['name']] = self.text(a, ctx)
+                    a0 = strip_casts(a)
+                    if a0.get('m') and a0.get('mw') and p.get('T') in ('double', 'float'):
+                        # a floating constant handed over as a macro is that named constant (RE2, AVOGNUM), as if it had been
+                        # stored in a local of main first
+                        sub.env[p['name']] = a0['m'][-1]
+                    else:
+                        sub.env[p['name']] = self.text(a, ctx)
                 self.visit(h['body'], sub)
         else:
             for key in ('then', 'else', 'body'):
